@@ -1,4 +1,4 @@
 package main
 
-func answerOracle(c *Ctx, kind string, args []string) string { return "0" }
+func answerCryptoOracle(c *Ctx, kind string, args []string) string { return "0" }
 func sitesMain(args []string)                                 {}
